@@ -63,7 +63,8 @@ def check_tangent(run, items, x, K, label, conservative=None, ndir=3, rng=None, 
         run.skip(mon, "nearly-incompressible body not at a settled state")
         return
     try:
-        if min_detF(x) < 0.2:
+        # only bodies with a constitutive law restrict the admissible states (constraints and dead loads do not)
+        if any(hasattr(it, "umat") for it in items) and min_detF(x) < 0.2:
             run.skip(mon, "det F < 0.2 somewhere")
             run.note("det F < 0.2: " + label)
             return
